@@ -2,7 +2,7 @@
    observation (Engine/Observe.v).  The same extracted functions judge the model's run and the
    implementation's run.  A monitor returning false on the implementation's observation is a
    concrete failing input for the property. *)
-From GM Require Import Base.Prelude Base.Outcome Codec.Packets Codec.Settings Engine.Model Engine.Observe.
+From GM Require Import Base.Prelude Base.Outcome Codec.Packets Codec.Settings Engine.Model Engine.Observe Validate.Spec.
 Open Scope N_scope.
 
 Definition is_okb {A} (o : outcome A) : bool := match o with Ok _ => true | _ => false end.
@@ -523,6 +523,14 @@ Fixpoint mon_c14_zero (cfg : config) (k : N) (ws : list wev) : bool :=
         mon_c14_zero cfg (match ca_server_keep_alive c with Some x => x | None => match co_keep_alive (cf_connect cfg) with Some x => x | None => 0 end end) rest
       else mon_c14_zero cfg k rest
   | WSent _ Pingreq _ :: rest => negb (k =? 0) && mon_c14_zero cfg k rest
+  | WOpen _ :: rest => mon_c14_zero cfg 1 rest            (* not negotiated yet on this connection *)
+  | WCall _ (EvService _ _ _) r _ :: rest =>
+      (* with K = 0 no keep-alive failure occurs (ConnectionClosed is the keep-alive failure of a service call) *)
+      (if k =? 0 then match r with Err EConnectionClosed => false | _ => true end else true) && mon_c14_zero cfg k rest
+  | WCall _ (EvClose _) r sn :: rest =>
+      (* a keep-alive deadline never outlives its connection *)
+      (if is_okb r then match sn_ping_to sn, sn_next_ping sn with None, None => true | _, _ => false end else true)
+      && mon_c14_zero cfg k rest
   | _ :: rest => mon_c14_zero cfg k rest
   end.
 
@@ -572,6 +580,39 @@ Fixpoint mon_c15_submit (policy : N) (prev : pstate) (pending : option (N * pack
   | WCall _ _ _ sn :: rest => mon_c15_submit policy (sn_st sn) None rest
   | WNst _ _ sn :: rest => mon_c15_submit policy (sn_st sn) pending rest
   | _ :: rest => mon_c15_submit policy prev pending rest
+  end.
+
+(* ------------------------------------------------------------------ C16: server limits on the wire *)
+(* what the last accepted CONNACK of this connection announced (specification defaults when absent) *)
+Record caps := mkCaps { cp_maxqos : N; cp_retain : bool; cp_wildcard : bool; cp_shared : bool; cp_maxpkt : N }.
+Definition caps_default : caps := mkCaps 2 true true true 268435460.
+Definition caps_of (c : connack) : caps :=
+  mkCaps (match ca_max_qos c with Some q => q | None => 2 end)
+         (match ca_retain_avail c with Some b => b | None => true end)
+         (match ca_wildcard c with Some b => b | None => true end)
+         (match ca_shared c with Some b => b | None => true end)
+         (match ca_max_packet c with Some m => m | None => 268435460 end).
+(* size of a packet as it appears on the wire (MQTT 5): the decoded packet already carries the wire topic and alias *)
+Definition wire_size (p : packet) : N :=
+  spec_total_size p {| r_skip_topic := false; r_alias := match p with Publish pb => pub_alias pb | _ => None end |}.
+Definition filter_allowed (c : caps) (f : bytes) : bool :=
+  (if filter_has_wildcard f then cp_wildcard c else true) && (if spec_shared_filter f then cp_shared c else true).
+(* nothing on the wire exceeds what the server announced: QoS, retain, wildcard / shared filters in a
+   SUBSCRIBE, the Maximum Packet Size (MQTT 5), and the static list rules *)
+Fixpoint mon_c16_wire (v5 : bool) (c : caps) (ws : list wev) : bool :=
+  match ws with
+  | [] => true
+  | WOpen _ :: rest => mon_c16_wire v5 caps_default rest
+  | WRecv _ (Connack k) :: rest => if ca_rc k =? 0 then mon_c16_wire v5 (caps_of k) rest else mon_c16_wire v5 c rest
+  | WSent _ p _ :: rest =>
+      (if v5 then match p with Connect _ => true | _ => wire_size p <=? cp_maxpkt c end else true) &&
+      match p with
+      | Publish pb => (pub_qos pb <=? cp_maxqos c) && (if pub_retain pb then cp_retain c else true)
+      | Subscribe x => negb (isnil (s_subs x)) && forallb (fun sb => filter_allowed c (sub_filter sb)) (s_subs x)
+      | Unsubscribe x => negb (isnil (u_filters x))
+      | _ => true
+      end && mon_c16_wire v5 c rest
+  | _ :: rest => mon_c16_wire v5 c rest
   end.
 
 (* ------------------------------------------------------------------ C17: outbound topic aliases *)
@@ -845,6 +886,7 @@ Definition all_monitors (cfg : config) (ws : list wev) : list (N * bool) :=
     (1404, mon_c14_pings cfg 0 None 0 0 ws);
     (1501, mon_c15 (cf_policy cfg) [] ws);
     (1502, mon_c15_submit (cf_policy cfg) Disconnected None ws);
+    (1601, mon_c16_wire v5 caps_default ws);
     (1701, mon_c17_out v5 0 [] [] ws);
     (1702, mon_c17_in (match co_tam (cf_connect cfg) with Some m => m | None => 0 end) [] [] ws);
     (1801, mon_c18_timeout [] [] [] ws);
